@@ -5,7 +5,7 @@ Record case := mkcase {
   c_cfg : cfg;
   c_fw : fw;                    (* destination path, name, aliases; prefix empty (no clash) *)
   c_setup_ok : bool;
-  c_opts : list string;         (* the option strings registered for the field (sorted) *)
+  c_opts : list string;         (* the option strings registered for the field, in the order they are registered *)
   c_members_ok : bool;          (* every registered spelling, when passed, set exactly this field *)
   c_nonmembers_ok : bool        (* spellings documented only for other configurations were rejected *)
 }.
@@ -13,8 +13,12 @@ Record case := mkcase {
 Definition in_scope (c : case) : bool := true.
 Definition same_set (a b : list string) : bool := strs_seteq a b && Nat.eqb (List.length a) (List.length b).
 
+(* exact list equality: since the fix: commit for option_strings the registration order is part of the behaviour
+   (insertion order, then stable sort by length); the regenerated fact option_order_preserved_gen says so *)
 Definition model_ok (c : case) : bool :=
-  c.(c_setup_ok) && same_set (option_strings c.(c_cfg) c.(c_fw)) c.(c_opts).
+  c.(c_setup_ok)
+  && (if option_order_preserved_gen then strs_eqb (option_strings c.(c_cfg) c.(c_fw)) c.(c_opts)
+      else same_set (option_strings c.(c_cfg) c.(c_fw)) c.(c_opts)).
 
 Definition spec_ok (c : case) : bool :=
   c.(c_setup_ok)
